@@ -75,3 +75,4 @@ LEVEL_TEXT = ("Proof (sub-check of C13). Lean theorems over models of WebSocketS
 LEVEL_NOTE = ("Trusted: Lean kernel; axioms propext/Classical.choice/Quot.sound only; the hand-written models (tied by sampled correspondence: 800 quick / "
               "16 000 random + 10 582 exhaustive small-scope lists thorough); the harness' own websocket server side and the paused clock. Serde "
               "deserialisation is exercised, not modelled.")
+ENV_PROBE = ["probe-env"]
